@@ -53,6 +53,7 @@
     P(C02_delivered_bytes_are_the_opened_record, IMPLIES(RET == SSL_PROCESS_DATA && g_in.k < g_len, g_buf[g_in.k] == g_in.buf[(gh_dec_off + g_in.k) % BUFN] && gh_dec_off + g_len <= BUFN)) \
     P(C02_decrypt_failure_never_yields_data,   IMPLIES(gh_dec_failed, RET != SSL_PROCESS_DATA && RET != SSL_ALERT && gh_hs_calls == 0)) \
     P(C02_decrypt_failure_is_fatal_unless_early_data_skip, IMPLIES(gh_dec_failed && !EARLY_SKIP_OK, (g_ssl.err == SSL_ALERT_BAD_RECORD_MAC && gh_alert_encoded == 1 && (g_ssl.flags & SSL_FLAGS_ERROR) != 0) || RET == SSL_FULL)) \
+    P(C15_undecryptable_record_tolerated_only_as_rejected_early_data_within_limit, IMPLIES(gh_dec_failed && !EARLY_SKIP_OK, (g_ssl.err == SSL_ALERT_BAD_RECORD_MAC && gh_alert_encoded == 1 && (g_ssl.flags & SSL_FLAGS_ERROR) != 0) || RET == SSL_FULL)) \
     P(C15_alert_sent_marks_session_failed,     IMPLIES(gh_alert_encoded > 0, (g_ssl.flags & SSL_FLAGS_ERROR) != 0)) \
     P(C15_alert_to_send_is_reported_fatal,     IMPLIES(RET == SSL_SEND_RESPONSE && g_alertDesc != SSL_ALERT_NONE, g_alertLevel == SSL_ALERT_LEVEL_FATAL && (g_ssl.flags & SSL_FLAGS_ERROR) != 0)) \
     P(C15_received_alert_kills_session,        IMPLIES(RET == SSL_ALERT, (g_ssl.flags & (SSL_FLAGS_ERROR | SSL_FLAGS_CLOSED)) != 0)) \
